@@ -63,7 +63,8 @@ Inductive panic_class :=
 | AuditTxAssert       (* applyTx: the assertion of tx to BxhTransaction when audit events exist for a non-Bxh tx *)
 | ParallelOnly        (* assertions of StateLedger to SimpleLedger guarded by supportParallel (configuration) *)
 | FatalStorage        (* ledger / merkle failure in block post-processing: deliberate stop *)
-| ProofGoroutine      (* the proof-verification goroutines: a panic inside is a process crash *)
+| ProofGoroutine      (* the proof-verification goroutines: a panic inside is a process crash; the call
+                         into the validation engine itself runs under checkProof's recover *)
 | SigGoroutine        (* the signature-verification goroutines *)
 | DetachedSend        (* [go feed.Send(..)]: never panics, never joins *)
 | ExecutorLoops       (* the three long-running loops started by Start *)
@@ -97,7 +98,8 @@ Definition panics_covered : bool :=
 
 (** the only functions that install a recover *)
 Definition recovers_expected : list (string * string) :=
-  [("pkg/vm/boltvm/boltvm.go", "BoltVM.Run"); ("pkg/vm/boltvm/boltvm.go", "BoltVM.HandleIBTP")].
+  [("internal/executor/executor.go", "BlockExecutor.checkProof");   (* guards the call into the validation engine *)
+   ("pkg/vm/boltvm/boltvm.go", "BoltVM.Run"); ("pkg/vm/boltvm/boltvm.go", "BoltVM.HandleIBTP")].
 Definition str2_eqb (a b : string * string) := String.eqb (fst a) (fst b) && String.eqb (snd a) (snd b).
 Definition recovers_covered : bool := list_eqb str2_eqb recovers recovers_expected.
 
